@@ -385,7 +385,8 @@ Example C03_witness_session :
      VL [VS (bs "stockholm"%bs); VI 57]; VE (bs "OSError"%bs); VS []].
 Proof. exact witness_session. Qed.
 
-(* ---- the recursion of _resolve_fname (pattern -> files, archive -> <tmpdir>/**/*.*, gzip, plain) over a file-system oracle *)
+(* ---- the recursion of _resolve_fname (pattern -> files that are no directories, archive -> <tmpdir>/**/*, gzip, plain,
+   download) over a file-system oracle *)
 (* the name decision as a first-match table: stdin > URL > pattern > archive > gzip > plain *)
 Theorem C03_resolve_is_table : forall isglob dd ex s a,
   resolve_g isglob dd ex (FStr s) a = first_row (resolve_rows isglob a (data_name dd s)) /\
@@ -410,23 +411,43 @@ Theorem C03_resolve_run_fuel : forall j k fs dd ex g name a, resolve_run k fs dd
 Proof. exact resolve_run_fuel. Qed.
 Print Assumptions C03_resolve_run_fuel.
 
-(* the four branches; the archive option reaches the files a pattern finds but not the content of an archive *)
+(* the four branches; directories a pattern finds are skipped (F49); the archive option reaches the files a pattern finds but
+   not the content of an archive *)
 Theorem C03_resolve_run_branches : forall k fs dd ex g name a,
   (forall n, resolve_g g dd ex (FStr name) a = DPlain n -> resolve_run (S k) fs dd ex g name a = ROk [LFile n]) /\
   (forall n d, resolve_g g dd ex (FStr name) a = DGz n -> fs_gunzip fs n = Some d -> resolve_run (S k) fs dd ex g name a = ROk [LData d]) /\
   (forall n fmt tmp, resolve_g g dd ex (FStr name) a = DArchive n fmt -> fs_unpack fs n fmt = Some tmp ->
      resolve_run (S k) fs dd ex g name a = resolve_run k fs dd ex true (tmp ++ glob_tail) ANone) /\
-  (forall pat, resolve_g g dd ex (FStr name) a = DGlob pat -> fs_glob fs pat <> [] ->
-     resolve_run (S k) fs dd ex g name a = rconcat (map (fun n => resolve_run k fs dd ex false n a) (fs_glob fs pat))) /\
-  (forall pat, resolve_g g dd ex (FStr name) a = DGlob pat -> fs_glob fs pat = [] -> resolve_run (S k) fs dd ex g name a = RErr).
+  (forall pat, resolve_g g dd ex (FStr name) a = DGlob pat -> glob_files fs pat <> [] ->
+     resolve_run (S k) fs dd ex g name a = rconcat (map (fun n => resolve_run k fs dd ex false n a) (glob_files fs pat))) /\
+  (forall pat, resolve_g g dd ex (FStr name) a = DGlob pat -> glob_files fs pat = [] -> resolve_run (S k) fs dd ex g name a = RErr).
 Proof. exact resolve_run_branches. Qed.
 Print Assumptions C03_resolve_run_branches.
 
+(* the download branch: data / gzip data decompressed in memory / an archive saved as <prefix><bname> and resolved again WITH
+   the caller's archive option; the saved file is an archive by the same test as the URL's base name *)
+Theorem C03_resolve_run_url : forall k fs dd ex g name a b sub payload,
+  resolve_g g dd ex (FStr name) a = DUrl b sub -> fs_get fs (resolved_name dd name) = Some payload ->
+  resolve_run (S k) fs dd ex g name a =
+    match sub with
+    | UData => ROk [LData payload]
+    | UGz => match fs_gzdec fs payload with None => RErr | Some d => ROk [LData d] end
+    | _ => resolve_run k fs dd ex true (fs_dlprefix fs ++ b) a
+    end.
+Proof. exact resolve_run_url. Qed.
+Print Assumptions C03_resolve_run_url.
+
+Theorem C03_url_saved_archive : forall dd ex prefix b a,
+  plain_name (prefix ++ b) = true -> wants_archive a b = true ->
+  resolve_g true dd ex (FStr (prefix ++ b)) a = DArchive (prefix ++ b) (arch_fmt a).
+Proof. exact url_saved_archive. Qed.
+Print Assumptions C03_url_saved_archive.
+
 (* a pattern over simple files: every match is read, in the order glob reports them *)
 Theorem C03_resolve_run_glob_concat : forall k fs dd ex g pat a,
-  resolve_g g dd ex (FStr pat) a = DGlob pat -> fs_glob fs pat <> [] ->
-  forallb (simple_name dd ex a) (fs_glob fs pat) = true ->
-  resolve_run (S (S k)) fs dd ex g pat a = ROk (map LFile (fs_glob fs pat)).
+  resolve_g g dd ex (FStr pat) a = DGlob pat -> glob_files fs pat <> [] ->
+  forallb (simple_name dd ex a) (glob_files fs pat) = true ->
+  resolve_run (S (S k)) fs dd ex g pat a = ROk (map LFile (glob_files fs pat)).
 Proof. exact resolve_run_glob_concat. Qed.
 Print Assumptions C03_resolve_run_glob_concat.
 
@@ -434,9 +455,9 @@ Print Assumptions C03_resolve_run_glob_concat.
 Theorem C03_resolve_run_flat_archive : forall k fs dd ex g name a n fmt tmp,
   resolve_g g dd ex (FStr name) a = DArchive n fmt -> fs_unpack fs n fmt = Some tmp ->
   resolve_g true dd ex (FStr (tmp ++ glob_tail)) ANone = DGlob (tmp ++ glob_tail) ->
-  fs_glob fs (tmp ++ glob_tail) <> [] ->
-  forallb (simple_name dd ex ANone) (fs_glob fs (tmp ++ glob_tail)) = true ->
-  resolve_run (S (S (S k))) fs dd ex g name a = ROk (map LFile (fs_glob fs (tmp ++ glob_tail))).
+  glob_files fs (tmp ++ glob_tail) <> [] ->
+  forallb (simple_name dd ex ANone) (glob_files fs (tmp ++ glob_tail)) = true ->
+  resolve_run (S (S (S k))) fs dd ex g name a = ROk (map LFile (glob_files fs (tmp ++ glob_tail))).
 Proof. exact resolve_run_flat_archive. Qed.
 Print Assumptions C03_resolve_run_flat_archive.
 
@@ -456,9 +477,17 @@ Theorem C03_resolves_deterministic : forall fs dd ex g name a l1 l2,
 Proof. exact resolves_deterministic. Qed.
 Print Assumptions C03_resolves_deterministic.
 
+Example C03_witness_resolve_url :
+  resolve_run 5 demo_url_fs [] [] true (bs "http://h/p/x.zip?dl=1"%bs) ANone = ROk [LFile (bs "<dl>x.zip/m.fa"%bs)] /\
+  resolve_run 5 demo_url_fs [] [] true (bs "http://h/a.fa.gz"%bs) ANone = ROk [LData (bs ">z"%bs)] /\
+  resolve_run 5 demo_url_fs [] [] true (bs "http://h/a.fa"%bs) ANone = ROk [LData (bs ">a"%bs)] /\
+  resolve_run 5 demo_url_fs [] [] true (bs "http://h/a.fa"%bs) (AStr (bs "gz"%bs)) = RErr /\
+  resolve_run 5 demo_url_fs [] [] true (bs "http://h/missing"%bs) ANone = RErr.
+Proof. exact witness_resolve_url. Qed.
+
 Example C03_witness_resolve_run :
   resolve_run 6 demo_fs [] [] true (bs "d/*"%bs) ANone =
-    ROk [LFile (bs "d/a.fa"%bs); LData (bs "B"%bs); LFile (bs "d/c[1].fa"%bs); LData (bs "M"%bs); LFile (bs "<<d/x.zip>/in.tar>/deep.fa"%bs)] /\
+    ROk [LFile (bs "d/a.fa"%bs); LData (bs "B"%bs); LFile (bs "d/c[1].fa"%bs); LData (bs "M"%bs); LFile (bs "<<d/x.zip>/in.tar>/v1.0/deep"%bs)] /\
   resolve_run 3 demo_fs [] [] true (bs "d/*"%bs) ANone = RFuel /\
   resolve_run 9 demo_fs [] [] true (bs "blob"%bs) (AStr (bs "zip"%bs)) = RErr /\
   resolve_run 9 demo_fs [] [] true (bs "nothing*"%bs) ANone = RErr /\
@@ -515,12 +544,18 @@ Example C03_witness_dispatch :
   is_binary_handle false false true = true.
 Proof. exact witness_dispatch. Qed.
 
-(* ---- what sugar writes into an archive, sugar reads back: proved under a guard (ordinary name, member visible to *.* and
-   not named like an archive or gzip file), refuted without it (OPEN: pending fixes archnodot / archdir) *)
+(* ---- what sugar writes into an archive, sugar reads back, with or without a dot in the target name (F50 fixed): proved under
+   the guard "ordinary name, not hidden, not named like an archive or gzip file itself"; still refuted without it *)
 Theorem C03_archive_roundtrip_partial : forall tmp name ext,
   In ext KNOWN_ARCHIVE_EXTS -> roundtrip_guard tmp name ext = true -> readback_ok tmp name ext = true.
 Proof. exact archive_roundtrip_partial. Qed.
 Print Assumptions C03_archive_roundtrip_partial.
+
+Theorem C03_archive_roundtrip_nodot : forall tmp name ext,
+  In ext KNOWN_ARCHIVE_EXTS -> roundtrip_guard tmp name ext = true -> contains [dot] (basename name) = false ->
+  readback_ok tmp name ext = true.
+Proof. exact archive_roundtrip_nodot. Qed.
+Print Assumptions C03_archive_roundtrip_nodot.
 
 Theorem C03_archive_roundtrip_refuted :
   exists name ext, In ext KNOWN_ARCHIVE_EXTS /\ plain_name (name ++ dot :: ext) = true /\ readback_ok (bs "<T>"%bs) name ext = false.
@@ -538,7 +573,8 @@ Example C03_witness_wround :
   roundtrip_guard (bs "<T>"%bs) (bs "dir.d/data.fasta"%bs) (bs "tar.gz"%bs) = true /\
   readback_ok (bs "<T>"%bs) (bs "dir.d/data.fasta"%bs) (bs "tar.gz"%bs) = true /\
   readback_ok (bs "<T>"%bs) (bs "x[1].fa"%bs) (bs "zip"%bs) = false /\
-  readback_ok (bs "<T>"%bs) (bs "data"%bs) (bs "zip"%bs) = false /\
+  roundtrip_guard (bs "<T>"%bs) (bs "dir.d/data"%bs) (bs "zip"%bs) = true /\
+  readback_ok (bs "<T>"%bs) (bs "data"%bs) (bs "zip"%bs) = true /\
   readback_ok (bs "<T>"%bs) (bs ".hidden.fa"%bs) (bs "zip"%bs) = false /\
   readback_ok (bs "<T>"%bs) (bs "x.fa.gz"%bs) (bs "zip"%bs) = false.
 Proof. exact witness_wround. Qed.
